@@ -298,8 +298,27 @@ func ruleFirstCellGuard(c *Ctx, rule string, fns []*ssa.Function) {
 					if !ok || !strings.HasSuffix(typeString(al.Type()), "featPair") {
 						continue
 					}
+					// the score the pair is given: whether a segment is closed cannot depend on it (a block
+					// whose scores happen to sum to zero is a block all the same)
+					var scoreVal ssa.Value
+					for _, r := range *al.Referrers() {
+						if fa, ok := r.(*ssa.FieldAddr); ok && structFieldName(fa.X.Type(), fa.Field) == "score" {
+							for _, rr := range *fa.Referrers() {
+								if st, ok := rr.(*ssa.Store); ok && st.Addr == ssa.Value(fa) {
+									scoreVal = st.Val
+								}
+							}
+						}
+					}
 					for _, bf := range branchesAt(b) {
 						if !l.body[bf.cond.Block()] {
+							continue
+						}
+						if scoreVal != nil && (bf.cond.X == scoreVal || bf.cond.Y == scoreVal) {
+							cnt++
+							n++
+							c.Funcs[funcName(fn)] = true
+							c.bad(rule, fmt.Sprintf("%s/boundary-guard#%d", funcName(fn), cnt), bf.cond.Pos(), "the emission of a block boundary in the traceback depends on the score accumulated for the open segment ("+symName(bf.cond.X, nil)+" "+bf.cond.Op.String()+" "+symName(bf.cond.Y, nil)+"): a block whose letter scores sum to that value is not closed when a gap run starts, and is merged with the gap into one pair that is neither a block nor a gap")
 							continue
 						}
 						// the loop's own continuation test is not a guard of the emission
